@@ -370,6 +370,8 @@ pub fn exec(line: &str, _model: &mut Model) -> Option<Exec> {
                     if !matches!(&back, Some(Ok(y)) if y == x) { e.oracle_fail = Some(format!("{:?} prints as {:?} which does not parse back to it", s, printed)); }
                     let cb = serde_cbor::to_vec(x).ok().and_then(|v| serde_cbor::from_slice::<EndpointID>(&v).ok());
                     if cb.as_ref() != Some(x) { e = e.fail(Some("CBOR form does not decode back to an equal EID".into())); }
+                    let cr = serde_cbor::to_vec(x).ok().and_then(|v| no_panic(|| serde_cbor::from_reader::<EndpointID, _>(&v[..]).ok()).flatten());
+                    if cr.as_ref() != Some(x) { e = e.fail(Some(format!("CBOR form read through serde_cbor::from_reader does not decode back to an equal EID: {:?}", cr))); }
                     if let Some(Some(nid)) = no_panic(|| x.node_id()) {
                         match EndpointID::try_from(nid.as_str()) {
                             Ok(ne) if ne.node() == x.node() && ne.is_node_id() => {}
@@ -422,7 +424,13 @@ pub fn exec(line: &str, _model: &mut Model) -> Option<Exec> {
             let e = parse_eid(t.get(1)?)?;
             let v = serde_cbor::to_vec(&e).ok()?;
             let back = no_panic(|| serde_cbor::from_slice::<EndpointID>(&v));
-            Some(Exec::new(format!("ok {} {}", hex(&v), match back { None => "panic".into(), Some(Ok(x)) => format!("ok {}", show_eid(&x)), Some(Err(_)) => "err".into() })))
+            let mut ex = Exec::new(format!("ok {} {}", hex(&v), match &back { None => "panic".into(), Some(Ok(x)) => format!("ok {}", show_eid(x)), Some(Err(_)) => "err".into() }));
+            // the same bytes through a reader (no borrowing from the input): same result
+            if let Some(Ok(x)) = &back {
+                let rd = no_panic(|| serde_cbor::from_reader::<EndpointID, _>(&v[..]).ok()).flatten();
+                if rd.as_ref() != Some(x) { ex.oracle_fail = Some(format!("CBOR form decodes to {} from a slice but to {:?} from a reader", show_eid(x), rd)); }
+            }
+            Some(ex)
         }
         "eid.dec" => {
             let v = unhex(t.get(1)?)?;
@@ -487,6 +495,10 @@ pub fn exec(line: &str, _model: &mut Model) -> Option<Exec> {
             let refb = match &r { AdministrativeRecord::BundleStatusReport(sr) => no_panic(|| sr.refbundle()).map(|x| hex(x.as_bytes())).unwrap_or("panic".into()), _ => "-".into() };
             let mut e = Exec::new(format!("ok {} {} ref={}", hex(&v), match &back { None => "panic".into(), Some(Ok(x)) => format!("ok {}", show_admin(x)), Some(Err(_)) => "err".into() }, refb));
             if admin_normal(&r) && !matches!(&back, Some(Ok(x)) if *x == r) { e.oracle_fail = Some("administrative record in normal form does not decode back to an equal record".into()); }
+            if admin_normal(&r) && e.oracle_fail.is_none() {
+                let rd = no_panic(|| serde_cbor::from_reader::<AdministrativeRecord, _>(&v[..]).ok()).flatten();
+                if rd.as_ref() != Some(&r) { e.oracle_fail = Some("administrative record in normal form does not decode back to an equal record through serde_cbor::from_reader".into()); }
+            }
             if let AdministrativeRecord::BundleStatusReport(sr) = &r {
                 // the bundle (fragment) this report describes, and its ID
                 let mut b = Bundle::default();
@@ -601,17 +613,18 @@ type Emit<'a> = &'a mut dyn FnMut(&mut Ctx, &mut Report, String);
 fn gen_c07(rng: &mut Rng, ctx: &mut Ctx, rep: &mut Report, emit: Emit) {
     // finite rule space (thorough: complete; quick: sampled)
     let flag_bits: [u64; 15] = [0x1, 0x2, 0x4, 0x20, 0x40, 0x4000, 0x10000, 0x20000, 0x40000, 0x8, 0x10, 0x200, 0x2000, 0x4000 << 1, 0x8000 << 1];
-    let kinds: [(u64, fn(&mut Rng) -> CanonicalData); 5] = [
+    let kinds: [(u64, fn(&mut Rng) -> CanonicalData); 6] = [
         (1, |_| CanonicalData::Data(vec![1, 2, 3])), (6, |_| CanonicalData::PreviousNode(EndpointID::with_dtn("n1").unwrap())),
         (7, |_| CanonicalData::BundleAge(5)), (10, |_| CanonicalData::HopCount(32, 1)), (192, |_| CanonicalData::Unknown(vec![9])),
+        (9, |_| CanonicalData::Unknown(vec![])),   // an unassigned type between the at-most-once types 7 and 10: may repeat
     ];
     let mut lists: Vec<Vec<(usize, u64, u8)>> = vec![vec![]];
-    // all block lists of up to 4 blocks over 5 kinds x numbers {1,2,3} x status-report flag on/off
+    // all block lists of up to 4 blocks over 6 kinds x numbers {1,2,3} x status-report flag on/off
     let maxlen = if ctx.tier_thorough { 4 } else { 2 };
     let mut frontier = lists.clone();
     for _ in 0..maxlen {
         let mut next = vec![];
-        for l in &frontier { for k in 0..5 { for num in 1..=3u64 { for fl in [0u8, 2] { let mut x = l.clone(); x.push((k, num, fl)); next.push(x); } } } }
+        for l in &frontier { for k in 0..6 { for num in 1..=3u64 { for fl in [0u8, 2] { let mut x = l.clone(); x.push((k, num, fl)); next.push(x); } } } }
         lists.extend(next.iter().cloned());
         frontier = next;
     }
